@@ -48,9 +48,9 @@ def under_width(dt, f):
     old = ViewBase._dtype
     spelled = dt
     if dt is np.int32:
-        # the 32-bit width as the type object or as the equivalent dtype object, alternating from case to case
+        # the 32-bit width as the type object, the equivalent dtype object or its names, alternating from case to case
         WIDTH_SPELLING[0] += 1
-        spelled = np.int32 if WIDTH_SPELLING[0] % 2 else np.dtype("int32")
+        spelled = [np.int32, np.dtype("int32"), "int32", "i4"][WIDTH_SPELLING[0] % 4]
     ViewBase.set_dtype(spelled)
     try:
         if dt is np.int32:
